@@ -26,12 +26,12 @@ type PairOpts struct {
 	Log           *vh.Log
 	// WrapClient / WrapServer interpose on the session's own Connection
 	// (server side only for mem/pipe, where the harness owns the transport).
-	WrapClient func(mcp.Connection) mcp.Connection
-	WrapServer func(mcp.Connection) mcp.Connection
-	HTTPOpts   *mcp.StreamableHTTPOptions
-	MaxRetries int
+	WrapClient           func(mcp.Connection) mcp.Connection
+	WrapServer           func(mcp.Connection) mcp.Connection
+	HTTPOpts             *mcp.StreamableHTTPOptions
+	MaxRetries           int
 	DisableStandaloneSSE bool
-	AsyncDelete bool
+	AsyncDelete          bool
 }
 
 // Pair is a connected client/server session pair.
@@ -40,9 +40,9 @@ type Pair struct {
 	// stream Read that ignores Close); call it when the scenario is over.
 	Release func()
 	CS      *mcp.ClientSession
-	SS     *mcp.ServerSession // nil for stateless HTTP
-	InProc *InProc
-	H      http.Handler
+	SS      *mcp.ServerSession // nil for stateless HTTP
+	InProc  *InProc
+	H       http.Handler
 }
 
 type stubbornReader struct{ r *bufPipe }
@@ -52,7 +52,7 @@ func (s stubbornReader) Read(p []byte) (int, error) { return s.r.Read(p) }
 type bufPipeWriter struct{ p *bufPipe }
 
 func (w bufPipeWriter) Write(b []byte) (int, error) { return w.p.Write(b) }
-func (w bufPipeWriter) Close() error               { w.p.CloseWrite(nil); return nil }
+func (w bufPipeWriter) Close() error                { w.p.CloseWrite(nil); return nil }
 func (s stubbornReader) Close() error               { return nil } // like os.Stdin: Close does not interrupt Read
 
 type failCloseWriter struct{ w *io.PipeWriter }
